@@ -40,3 +40,101 @@ CHECKS['C25'] = {
                 'ceil2(n) for n > 2^63 (result not representable)', 'big-endian code paths'],
     'assumptions': ['x86 bsr/bsf inline asm modelled by prelude.h (__verif_bsr*/__verif_bsf*); destination undefined for zero input'],
 }
+
+# ---------------------------------------------------------------- C26
+def _c26():
+    qs = []
+    c = dict(mode='seq', opt='O1', unwind=67, timeout=600)
+    qs.append(Q('init_small32', 'c26_counter.cpp', defs={'Q_INIT': None, 'NSMALL': 31}, mode='seq', opt='O0', unwind=67, timeout=600,
+                note='-O0 IR: no inlining, so every loop lives in its own function frame (cbmc loop counters are per frame)'))
+    qs.append(Q('step_inc_dec', 'c26_counter.cpp', defs={'Q_STEP': None}, **c))
+    qs.append(Q('step_inc_dec_ub', 'c26_counter.cpp', defs={'Q_STEP': None}, mode='seq', opt='O0', shift_check=True, unwind=67, timeout=600))
+    qs.append(Q('step_dec_inc', 'c26_counter.cpp', defs={'Q_DEC': None}, **c))
+    qs.append(Q('distinct', 'c26_counter.cpp', defs={'Q_DISTINCT': None}, **c))
+    qs.append(Q('dyck8', 'c26_counter.cpp', defs={'Q_DYCK': None, 'NOPS': 8}, **c))
+    qs.append(Q('dyck14', 'c26_counter.cpp', defs={'Q_DYCK': None, 'NOPS': 14}, tiers=('thorough',), mode='seq', opt='O1', unwind=67, timeout=3000))
+    qs.append(Q('prefix_contiguous', 'c26_counter.cpp', defs={'Q_PREFIX': None, 'NMAX': '(1ull<<20)'}, **c))
+    return qs
+CHECKS['C26'] = {
+    'queries': _c26(), 'level': 'model_checking',
+    'outside': ['counts >= 2^63', 'the claim is inductive over the representation invariant INV(count, reversed, high_bit) stated in harness/c26_counter.cpp'],
+    'assumptions': ['pre-state of the step queries is any state satisfying INV; INV is asserted for the initial state and after every step, so it is not an extra assumption'],
+}
+
+# ---------------------------------------------------------------- C27
+def _c27():
+    qs = []
+    for var, vn, tiers in ((0, 'hp', ('quick', 'thorough')), (1, 'nogc', ('quick', 'thorough')), (2, 'rcu', ('quick', 'thorough'))):
+        for br in ('swar', 'lookup', 'muldiv'):
+            t = tiers if (br == 'swar' or var == 0) else ('thorough',)
+            qs.append(Q('splitorder_%s_%s' % (vn, br), 'c27_splitorder.cpp', defs={'VARIANT': var, 'BITREV': br, 'KLO': 0, 'KHI': 63},
+                        mode='seq', opt='O1', unwind=66, timeout=900, tiers=t))
+    qs.append(Q('splitorder_hp_swar_ub', 'c27_splitorder.cpp', defs={'VARIANT': 0, 'BITREV': 'swar', 'KLO': 0, 'KHI': 63},
+                mode='seq', opt='O0', shift_check=True, unwind=66, timeout=900))
+    return qs
+CHECKS['C27'] = {
+    'queries': _c27(), 'level': 'model_checking',
+    'outside': ['bucket_no() is run on an object whose only initialised member is m_nBucketCountLog2 (a real table of 2^k buckets cannot be built for symbolic k)',
+                'big-endian targets'],
+    'assumptions': [],
+}
+
+# ---------------------------------------------------------------- C28
+def _c28():
+    qs = []
+    qs.append(Q('metrics_make', 'c28_feldman.cpp', defs={'Q_METRICS': None, 'HEAD_MAX': 64, 'HEAD_MAX64': 48}, mode='seq', opt='O1', unwind=4, timeout=600))
+    qs.append(Q('metrics_make_ub', 'c28_feldman.cpp', defs={'Q_METRICS': None, 'HEAD_MAX': 64, 'HEAD_MAX64': 48}, mode='seq', opt='O0', shift_check=True, unwind=4, timeout=600))
+    for ht, nm, lv, tiers in (('uint8_t', 'u8', 3, ('quick', 'thorough')), ('uint16_t', 'u16', 7, ('quick', 'thorough')),
+                              ('uint32_t', 'u32', 15, ('quick', 'thorough')), ('uint64_t', 'u64', 31, ('quick', 'thorough'))):
+        qs.append(Q('path_' + nm, 'c28_feldman.cpp', defs={'Q_PATH': None, 'HASH_T': ht, 'MAXLEVEL': lv, 'HEAD_MAX64': 48}, mode='seq', opt='O1',
+                    unwind=max(lv + 2, 10), timeout=900, tiers=tiers))
+    return qs
+CHECKS['C28'] = {
+    'queries': _c28(), 'level': 'model_checking',
+    'outside': ['8-byte hashes with a requested head_bits > 48 (a head array of more than 2^48 slots cannot be allocated; metrics::make would shift by 64 for head_bits == 64)',
+                'user-supplied hash_splitter types other than the default select_splitter choice; non-integral hash types wider than 8 bytes',
+                'the tree code of multilevel_array::traverse/expand_slot itself (pointer-rich, needs an SMR): the harness replays its cut sequence on the real splitter and metrics'],
+    'assumptions': [],
+}
+
+# ---------------------------------------------------------------- C22
+def _c22():
+    qs = []
+    def q(name, kind, T, K, nops, trylock=0, tiers=('quick', 'thorough'), timeout=600, unwind=4):
+        qs.append(Q(name, 'c22_locks.cpp', mode='coro', T=T, K=K, defs={'LOCK_KIND': kind, 'NOPS': nops, 'USE_TRYLOCK': trylock, 'VERIF_T': T},
+                    spin={'do_lock': 2}, unwind=unwind, timeout=timeout, tiers=tiers, validate=6))
+    q('spin_lock_T2_K4', 0, 2, 4, 1)
+    q('spin_lock_T2_K6_n2', 0, 2, 6, 2, unwind=5)
+    q('spin_lock_T3_K5', 0, 3, 5, 1)
+    q('spin_trylock_T2_K5_n2', 0, 2, 5, 2, trylock=1, unwind=5)
+    q('reentrant_T2_K4', 1, 2, 4, 1)
+    q('reentrant_T2_K6', 1, 2, 6, 1, tiers=('thorough',), timeout=3000)
+    q('spin_lock_T3_K7_n2', 0, 3, 7, 2, tiers=('thorough',), timeout=3000, unwind=5)
+    return qs
+CHECKS['C22'] = {
+    'queries': _c22(), 'level': 'model_checking',
+    'outside': ['pool_monitor, injecting_monitor, lock_array (not encoded in this round: they need an allocator-backed lock pool / node hooks)',
+                'sequential consistency only: weakening a memory_order is not detectable', 'schedules with more than K-1 context switches',
+                'liveness (a lock() that spins forever is cut by assume after U failed iterations)'],
+    'assumptions': ['context switches only immediately before atomic operations (DRF-SC)', 'pthread_self() modelled as the harness thread number'],
+}
+
+# ---------------------------------------------------------------- C07
+def _c07():
+    qs = []
+    def q(name, T, K, nops, cap, rot, dyn=0, ic=0, tiers=('quick', 'thorough'), timeout=900, U=3):
+        qs.append(Q(name, 'c07_vyukov.cpp', mode='coro', T=T, K=K, defs={'NOPS': nops, 'CAP': cap, 'ROTMAX': rot, 'DYNAMIC_BUFFER': dyn, 'ITEM_COUNTER': ic, 'VERIF_T': T},
+                    spin={'do_enq|do_deq': U}, unwind=max(26, cap + 3), timeout=timeout, tiers=tiers, validate=6))
+    q('vyukov_static_cap2_T2_n2_K4', 2, 4, 2, 2, 3)
+    q('vyukov_dynamic_cap2_T2_n2_K4_ic', 2, 4, 2, 2, 3, dyn=1, ic=1)
+    q('vyukov_static_cap4_T2_n2_K5', 2, 5, 2, 4, 5, tiers=('thorough',), timeout=3000)
+    q('vyukov_static_cap2_T2_n2_K6', 2, 6, 2, 2, 3, tiers=('thorough',), timeout=3000)
+    return qs
+CHECKS['C07'] = {
+    'queries': _c07(), 'level': 'model_checking',
+    'outside': ['intrusive::VyukovMPMCCycleQueue wrapper and the single-consumer front()/pop_front() pair (not encoded this round)',
+                'capacities above 4, more than 2 threads x 2 operations, more than K-1 context switches',
+                'sequential consistency only: weakening a memory_order is not detectable'],
+    'assumptions': ['context switches only immediately before atomic operations (DRF-SC)',
+                    'retry iterations of enqueue_with/dequeue_with are read-only on shared state; more than U retries per call are cut by assume (stutter-equivalent for safety)'],
+}
